@@ -313,11 +313,16 @@ class Bicomplex(object):
         return self.log() / np.log(2)
 
     def log1p(self):
-        return Bicomplex(np.log1p(self.mod_c()), self.arg_c1p())
+        # log(1 + z) = log(mod_c(1 + z)) + j * arg_c(1 + z),  mod_c(1 + z)**2 = 1 + z1*(2 + z1) + z2**2
+        z1, z2 = self.z1, self.z2
+        return Bicomplex(0.5 * np.log1p(z1 * (2 + z1) + z2 * z2), self.arg_c1p())
 
     def expm1(self):
-        expz1 = np.expm1(self.z1)
-        return Bicomplex(expz1 * np.cos(self.z2), expz1 * np.sin(self.z2))
+        # exp(z) - 1 = expm1(z1)*cos(z2) + (cos(z2) - 1) + j * exp(z1)*sin(z2)
+        expm1_z1 = np.expm1(self.z1)
+        sin_half_z2 = np.sin(0.5 * self.z2)
+        return Bicomplex(expm1_z1 * np.cos(self.z2) - 2 * sin_half_z2 * sin_half_z2,
+                         (expm1_z1 + 1) * np.sin(self.z2))
 
     def exp(self):
         expz1 = np.exp(self.z1)
